@@ -125,6 +125,12 @@ class _RefSetK(Kind):
         return z3.ArraySort(V.RefSort, z3.BoolSort())
 
     def wrap(self, ctx, term):
+        # closed world: the members are expression values (instances of the repository's subclasses of Any)
+        eng = ctx.engine
+        anyc = eng.repo.cls("pydsdl._expression._any.Any")
+        x = z3.FreshConst(V.RefSort, "x")
+        rng = z3.Or(*[eng.tag_fn(x) == eng.class_id(c) for c in anyc.all_subclasses()])
+        ctx.add_axiom(z3.ForAll([x], z3.Implies(z3.Select(term, x), rng), patterns=[z3.Select(term, x)]))
         return SymSet(term, V.RefSort)
 
     def unwrap(self, v):
@@ -540,3 +546,195 @@ def call_decorated(engine, ctx, finfo, args, kwargs):
 
 Engine.semantic_decorators = semantic_decorators
 Engine.call_decorated = call_decorated
+
+
+# ---------------------------------------------------------------------------------------------------- Set.__init__ idioms
+TAGCARD = _uf("tagcard", V.IntSetSort, z3.IntSort())
+
+
+class TagSet(SymSet):
+    """set(map(type, xs)): the set of the dynamic classes of a collection of objects."""
+
+
+def _tagset_of_seq(engine, ctx, seq: SymSeq):
+    tags = ctx.fresh("tags", V.IntSetSort)
+    i = z3.FreshConst(z3.IntSort(), "i")
+    t = z3.FreshConst(z3.IntSort(), "t")
+    idx = symexec_fresh_fn(ctx, "tags!idx", [z3.IntSort()], z3.IntSort())
+    el = z3.Select(seq.arr, i)
+    ctx.add_axiom(z3.ForAll([i], z3.Implies(z3.And(0 <= i, i < seq.length), z3.Select(tags, engine.tag_fn(el))),
+                            patterns=[el]))
+    ctx.add_axiom(z3.ForAll([t], z3.Implies(z3.Select(tags, t),
+                                            z3.And(0 <= idx(t), idx(t) < seq.length,
+                                                   engine.tag_fn(z3.Select(seq.arr, idx(t))) == t)),
+                            patterns=[z3.Select(tags, t)]))
+    return TagSet(tags, z3.IntSort(), fresh=True)
+
+
+def _card_facts(ctx, term, c, elem_sort):
+    """Cardinality of a finite set (Finset.card_eq_zero, Finset.card_eq_one): card >= 0; card = 0 iff empty;
+    card = 1 iff the set is a singleton."""
+    w = ctx.fresh("wit", elem_sort)
+    x = z3.FreshConst(elem_sort, "x")
+    y = z3.FreshConst(elem_sort, "y")
+    ctx.assume(c >= 0)
+    ctx.assume(z3.Implies(c >= 1, z3.Select(term, w)))
+    ctx.add_axiom(z3.ForAll([x], z3.Implies(z3.Select(term, x), c >= 1), patterns=[z3.Select(term, x)]))
+    single = z3.ForAll([y], z3.Implies(z3.Select(term, y), y == w), patterns=[z3.Select(term, y)])
+    ctx.assume(z3.Implies(c == 1, single))
+    ctx.assume(z3.Implies(z3.And(z3.Select(term, w), single), c == 1))
+
+
+_orig_bi_len = Lib.bi_len
+
+
+def bi_len(self, ctx, x):
+    if isinstance(x, TagSet):
+        c = TAGCARD(x.term)
+        _card_facts(ctx, x.term, c, z3.IntSort())
+        return c
+    return _orig_bi_len(self, ctx, x)
+
+
+Lib.bi_len = bi_len
+
+_orig_bi_list = Lib.bi_list
+
+
+def _enumerate_set(self, ctx, s: SymSet, kind, card):
+    """list(S) of a finite set: a duplicate-free enumeration of exactly its members (in an unspecified order)."""
+    arr = ctx.fresh("enum!arr", z3.ArraySort(z3.IntSort(), s.elem_sort))
+    i = z3.FreshConst(z3.IntSort(), "i")
+    x = z3.FreshConst(s.elem_sort, "x")
+    idx = symexec_fresh_fn(ctx, "enum!idx", [s.elem_sort], z3.IntSort())
+    ctx.add_axiom(z3.ForAll([i], z3.Implies(z3.And(0 <= i, i < card), z3.Select(s.term, z3.Select(arr, i))),
+                            patterns=[z3.Select(arr, i)]))
+    ctx.add_axiom(z3.ForAll([x], z3.Implies(z3.Select(s.term, x),
+                                            z3.And(0 <= idx(x), idx(x) < card, z3.Select(arr, idx(x)) == x)),
+                            patterns=[z3.Select(s.term, x)]))
+    return SymSeq(arr, card, kind, fresh=True)
+
+
+def bi_list(self, ctx, it=None):
+    if isinstance(it, TagSet):
+        return _enumerate_set(self, ctx, it, ClassTagK, self.bi_len(ctx, it))
+    if isinstance(it, SymSet) and it.elem_sort == V.RefSort:
+        return _enumerate_set(self, ctx, it, V.ObjOf("pydsdl._expression._any.Any"), self.set_card(ctx, it))
+    if isinstance(it, V.MappedIter) and it.fn is None:
+        return self.bi_list(ctx, refset_of_generator(self.e, ctx, it))
+    return _orig_bi_list(self, ctx, it)
+
+
+Lib.bi_list = bi_list
+
+_orig_bi_set2 = Lib.bi_set
+
+
+def bi_set2(self, ctx, it=None):
+    if isinstance(it, V.MappedIter) and isinstance(it.fn, V.Builtin) and it.fn.name == "type" and \
+            isinstance(it.it, SymSeq) and isinstance(it.it.kind, V.ObjOf):
+        return _tagset_of_seq(self.e, ctx, it.it)
+    if isinstance(it, V.MappedIter) and isinstance(it.fn, V.Builtin) and it.fn.name == "type" and \
+            isinstance(it.it, (PyList, tuple)):
+        items = it.it.items if isinstance(it.it, PyList) else list(it.it)
+        if all(isinstance(x, Obj) for x in items):
+            t = z3.K(z3.IntSort(), z3.BoolVal(False))
+            for x in items:
+                t = z3.Store(t, self.e.tag_fn(x.ref), z3.BoolVal(True))
+            return TagSet(t, z3.IntSort(), fresh=True)
+    if isinstance(it, (PyList, tuple)):
+        items = it.items if isinstance(it, PyList) else list(it)
+        if items and all(isinstance(x, Obj) for x in items):
+            t = z3.K(V.RefSort, z3.BoolVal(False))
+            for x in items:
+                t = z3.Store(t, x.ref, z3.BoolVal(True))
+            return SymSet(t, V.RefSort, fresh=True)
+    return _orig_bi_set2(self, ctx, it)
+
+
+Lib.bi_set = bi_set2
+Lib.bi_frozenset = bi_set2
+
+_orig_issubclass = Lib.bi_issubclass
+
+
+def bi_issubclass(self, ctx, c, base):
+    if isinstance(c, V.ClassTagV) and isinstance(base, V.ClassVal):
+        return z3.Or(*[c.term == self.e.class_id(k) for k in base.cls.all_subclasses()])
+    return _orig_issubclass(self, ctx, c, base)
+
+
+Lib.bi_issubclass = bi_issubclass
+
+
+def refset_of_generator(engine, ctx, m: V.MappedIter):
+    """The collection produced by a generator expression `(f(x) for x in S)` over a set of objects, consumed eagerly
+    (list(...) / set(...)): either the evaluation of f raises for some element (witness path: one arbitrary element,
+    every path explored), or it completes for every element and the result is the image of S under f."""
+    from . import loops
+
+    src = m.it
+    if isinstance(src, Obj) and src.cls.lookup("__iter__") is not None:
+        src = engine.call_function(ctx, src.cls.lookup("__iter__"), [src], {}, dynamic=True)
+    if not (isinstance(src, SymSet) and src.elem_sort == V.RefSort):
+        raise EngineLimit("generator expression over %r" % (src,))
+    gen = m.node.generators[0]
+    if gen.ifs:
+        raise EngineLimit("filtered generator expression")
+
+    def run_elem(value):
+        cenv = symexec.Env(m.env.module, m.env, m.env.finfo)
+        engine.assign(ctx, gen.target, value, cenv)
+        return engine.eval(ctx, m.node.elt, cenv)
+
+    if ctx.choose(2) == 0:
+        b = loops.bind_domain(engine, ctx, src)
+        wrapped = V.ObjOf("pydsdl._expression._any.Any").wrap(ctx, b.value)
+        engine.assume_wellformed(ctx, wrapped)
+        for g in b.guards + b.facts:
+            ctx.assume(g)
+        run_elem(wrapped)
+        raise PathEnd()
+    b = loops.bind_domain(engine, ctx, src)
+    holder = {"vals": []}
+
+    def run():
+        wrapped = V.ObjOf("pydsdl._expression._any.Any").wrap(ctx, b.value)
+        engine.assume_class_range(ctx, wrapped)
+        v = run_elem(wrapped)
+        holder["vals"].append(v)
+
+    normal = loops.summarise_block(engine, ctx, b, run, lambda: None)
+    vals = holder["vals"]
+    if len(normal) != 1 or len(vals) != 1 or not isinstance(vals[0], Obj):
+        raise EngineLimit("generator expression whose element has %d normal paths" % len(normal))
+    x = b.consts[0]
+    fx = vals[0].ref
+    v = z3.FreshConst(V.RefSort, "e")
+    y = z3.FreshConst(V.RefSort, "y")
+    out = ctx.fresh("image", RefSetSort)
+    inv = symexec_fresh_fn(ctx, "image!pre", [V.RefSort], V.RefSort)
+    sub = lambda t, a: z3.substitute(t, (x, a))
+    ctx.add_axiom(z3.ForAll([v], z3.Implies(z3.Select(src.term, v),
+                                            z3.And(sub(normal[0], v), z3.Select(out, sub(fx, v)))),
+                            patterns=[z3.Select(src.term, v)]))
+    ctx.add_axiom(z3.ForAll([y], z3.Implies(z3.Select(out, y),
+                                            z3.And(z3.Select(src.term, inv(y)), sub(fx, inv(y)) == y,
+                                                   sub(normal[0], inv(y)))),
+                            patterns=[z3.Select(out, y)]))
+    r = SymSet(out, V.RefSort, fresh=True)
+    r.image_of = (src, x, fx)
+    return r
+
+
+_orig_apply_contract = Engine.apply_contract
+
+
+def apply_contract(self, ctx, finfo, contract, args, kwargs):
+    hook = getattr(contract.impl, "coerce_args", None)
+    if hook is not None:
+        args, kwargs = hook(self, ctx, list(args), dict(kwargs))
+    return _orig_apply_contract(self, ctx, finfo, contract, args, kwargs)
+
+
+Engine.apply_contract = apply_contract
